@@ -15,11 +15,12 @@ else
   git -C "$target" apply "$patch" 2>/dev/null || git -C "$target" apply -3 "$patch" || { echo "patch does not apply"; git -C /repo worktree remove --force "$target"; exit 3; }
 fi
 cd /verif
+sev=$(mktemp -d /tmp/seed_evidence.XXXXXX); srp=$(mktemp -d /tmp/seed_replays.XXXXXX)     # per invocation: runs may be concurrent
 for id in "$@"; do
-  out=$(VERIF_EVIDENCE_DIR=/tmp/seed_evidence VERIF_REPLAY_DIR=/tmp/seed_replays VERIF_REPO=$target timeout 1800 ./check "$id" --tier "$tier" 2>&1); rc=$?
+  out=$(VERIF_EVIDENCE_DIR=$sev VERIF_REPLAY_DIR=$srp VERIF_REPO=$target timeout 1800 ./check "$id" --tier "$tier" 2>&1); rc=$?
   nv=$(printf '%s\n' "$out" | grep -c '^VIOLATION')
   echo "RESULT check=$id rc=$rc violations=$nv"
   printf '%s\n' "$out" | grep -E '^(VIOLATION|  what|MACHINERY|KNOWN)' | cut -c1-400 | head -6
 done
-rm -rf /tmp/seed_evidence /tmp/seed_replays
+rm -rf "$sev" "$srp"
 if [ "${IN_REPO:-0}" = "1" ]; then git -C /repo checkout -- .; else git -C /repo worktree remove --force "$target"; fi
